@@ -117,9 +117,8 @@ def det_worker(args):
         calls = rd.entry_calls(rng, opts.get("quick", True))
         traces, meta = [], []
         # what the integrators must be set up with: the specification's f and df/dx at the initial point
-        v0 = [float(v) for v in x0] + [0.0] + [float(v) for v in theta] + [0.0] * sy.nd
-        f_ref = np.array(refnum.compile_polys(sy, ode_polys)(v0), float)
-        J_ref = refnum.mat_from_spec(sy, jac_polys)(v0)
+        f_fun = refnum.compile_polys(sy, ode_polys)
+        J_fun = refnum.mat_from_spec(sy, jac_polys)
         for (entry_name, method, fo, io) in calls:
             special = None
             # grids that contain the initial time or a repeated time: only on the routes whose integrator accepts a
@@ -129,6 +128,9 @@ def det_worker(args):
             if zero_ok and rng.random() < 0.4:
                 special = rng.choice(["origin", "repeat"])
             grid = rd.time_grid(rng, tend, special=special)
+            v0 = [float(v) for v in x0] + [float(grid[0])] + [float(v) for v in theta] + [0.0] * sy.nd
+            f_ref = np.array(f_fun(v0), float)
+            J_ref = J_fun(v0)
             try:
                 ref = refnum.solve(rhs, [float(v) for v in x0], grid)
             except Exception as ex:
